@@ -520,6 +520,7 @@ def _array_contract_expression_with_constants(
     via=None,
     sort_contraction_indices=False,
     cache=True,
+    strip_exponent=False,
 ):
     # make a lazy variable for each non-constant input
     lazy_variables = []
@@ -553,11 +554,16 @@ def _array_contract_expression_with_constants(
         prefer_einsum=prefer_einsum,
         sort_contraction_indices=sort_contraction_indices,
         cache=cache,
+        strip_exponent=strip_exponent,
     )
 
     # trace through, and then get function with constants folded
     lz_output = full_expr(*lazy_variables_and_constants)
-    fn = lz_output.get_function(lazy_variables, fold_constants=True)
+    if isinstance(lz_output, tuple):
+        # e.g. (mantissa, exponent) if stripping exponent
+        fn = ar.lazy.Function(lazy_variables, lz_output, fold_constants=True)
+    else:
+        fn = lz_output.get_function(lazy_variables, fold_constants=True)
 
     # now we can jit
     if autojit:
@@ -569,7 +575,15 @@ def _array_contract_expression_with_constants(
         fn = WithBackend(fn)
 
     if via is not None:
-        fn = Via(fn, *via)
+        convert_in, convert_out = via
+        if strip_exponent:
+            # only the mantissa is an array to be converted
+            _convert_out = convert_out
+
+            def convert_out(out):
+                return _convert_out(out[0]), out[1]
+
+        fn = Via(fn, convert_in, convert_out)
 
     return fn
 
